@@ -10,6 +10,7 @@ import Gv.Spec.Structural
 import Gv.Proofs.EvalLemmas
 import Gv.Proofs.StructuralSound
 import Gv.Proofs.PlanCheckSound
+import Gv.Proofs.Safety
 
 namespace Gv.Props.C02
 open Gv Gv.Str Gv.Eval
@@ -298,5 +299,243 @@ example : WT [] exValue (.struct exFields) := by
         have h3 : (name == ['L']) = false := by simpa using hL
         simp [exValue, List.lookup] at hl
         simp [h1, h2, h3] at hl
+
+/-! ### The call terminates without panicking (`Gv/Proofs/Safety.lean`)
+
+`WTC` is complete well-typedness: `Typing.WT` plus "every declared field of a struct value is present", at every depth
+(`WT` alone does not exclude a struct value that lacks a field, on which the field read is stuck: `C02_WT_not_enough`). -/
+
+open Gv.Typing Gv.Safety Gv.Sound in
+/-- **C02_no_panic**: for a checked program, every method, every completely well-typed source value – nil at any depth
+included –, every fuel, every context values and counter: the call returns a value or runs out of fuel.  It never panics,
+never returns an error, and is never stuck for another reason (missing field, pointer expected, bad index, …). -/
+theorem C02_no_panic (p : Program) (hchk : PlanCheck.checkProg p = true)
+    (fuel m : Nat) (s t : Ty) (v : Val) (cs : List Val) (n : Nat)
+    (hsig : sigOf p m = some (s, t)) (hwt : WTC p.conv.env v s) :
+    (∃ w n', callMethod p fuel m v cs n = .ok (w, n')) ∨ callMethod p fuel m v cs n = .stuck "fuel" := by
+  rcases (safe_all p (checkProg_sound p hchk) fuel).2.1 m s t v cs n hsig hwt with ⟨⟨w, n'⟩, h⟩ | h
+  · exact .inl ⟨w, n', h⟩
+  · exact .inr h
+
+open Gv.Typing Gv.Safety Gv.Sound in
+/-- the same for every checked node, in any frame and over any previous target value -/
+theorem C02_no_panic_node (p : Program) (hchk : PlanCheck.checkProg p = true)
+    (fuel : Nat) (fr : Frame) (c : Conv) (s t : Ty) (v old : Val) (n : Nat)
+    (hc : PlanCheck.checkTy p c s t = true) (hwt : WTC p.conv.env v s) :
+    (∃ w n', evalConv p fuel fr c v old n = .ok (w, n')) ∨ evalConv p fuel fr c v old n = .stuck "fuel" := by
+  rcases (safe_all p (checkProg_sound p hchk) fuel).1 fr c s t v old n (checkTy_sound p c s t hc) hwt with ⟨⟨w, n'⟩, h⟩ | h
+  · exact .inl ⟨w, n', h⟩
+  · exact .inr h
+
+open Gv.Typing Gv.Safety in
+/-- spelled out: no panic, no error, no other stuck -/
+theorem C02_never_panics (p : Program) (hchk : PlanCheck.checkProg p = true)
+    (fuel m : Nat) (s t : Ty) (v : Val) (cs : List Val) (n : Nat)
+    (hsig : sigOf p m = some (s, t)) (hwt : WTC p.conv.env v s) :
+    (∀ k, callMethod p fuel m v cs n ≠ .panic k) ∧ (∀ e, callMethod p fuel m v cs n ≠ .err e) ∧
+    (∀ why, callMethod p fuel m v cs n = .stuck why → why = "fuel") := by
+  rcases C02_no_panic p hchk fuel m s t v cs n hsig hwt with ⟨w, n', h⟩ | h
+  · rw [h]; exact ⟨fun _ h => (by cases h), fun _ h => (by cases h), fun _ h => (by cases h)⟩
+  · rw [h]; exact ⟨fun _ h => (by cases h), fun _ h => (by cases h), fun _ h => (by cases h; rfl)⟩
+
+open Gv.Typing Gv.Safety Gv.Sound in
+/-- **C02_fuel_monotone**: once the call of a checked program has returned a value, more fuel returns the same value (and
+the same counter) -/
+theorem C02_fuel_monotone (p : Program) (hchk : PlanCheck.checkProg p = true)
+    (fuel fuel' m : Nat) (s t : Ty) (v : Val) (cs : List Val) (n : Nat) (w : Val) (n' : Nat)
+    (hsig : sigOf p m = some (s, t)) (hwt : WTC p.conv.env v s)
+    (hev : callMethod p fuel m v cs n = .ok (w, n')) (hle : fuel ≤ fuel') :
+    callMethod p fuel' m v cs n = .ok (w, n') :=
+  callMethod_mono p (checkProg_sound p hchk) m s t v cs n (w, n') hsig hwt fuel hev fuel' hle
+
+open Gv.Typing Gv.Safety Gv.Sound in
+theorem C02_fuel_monotone_node (p : Program) (hchk : PlanCheck.checkProg p = true)
+    (fuel fuel' : Nat) (fr : Frame) (c : Conv) (s t : Ty) (v old : Val) (n : Nat) (w : Val) (n' : Nat)
+    (hc : PlanCheck.checkTy p c s t = true) (hwt : WTC p.conv.env v s)
+    (hev : evalConv p fuel fr c v old n = .ok (w, n')) (hle : fuel ≤ fuel') :
+    evalConv p fuel' fr c v old n = .ok (w, n') :=
+  evalConv_mono p (checkProg_sound p hchk) fr c s t v old n (w, n') (checkTy_sound p c s t hc) hwt fuel hev fuel' hle
+
+open Gv.Typing Gv.Safety Gv.Sound in
+/-- **C02_total**: if the call structure descends (`callsDescend p rank`: in the body of method `m`, every call of a method
+on the SAME value – not below a pointer dereference, a list/map element or a struct field – goes to a method of smaller
+`rank`), every completely well-typed value has a fuel bound from which the call returns a value -/
+theorem C02_total (p : Program) (hchk : PlanCheck.checkProg p = true) (rank : Nat → Nat) (hdesc : callsDescend p rank = true)
+    (m : Nat) (s t : Ty) (v : Val) (hsig : sigOf p m = some (s, t)) (hwt : WTC p.conv.env v s) :
+    ∃ N, ∀ fuel, N ≤ fuel → ∀ (cs : List Val) (n : Nat), ∃ w n', callMethod p fuel m v cs n = .ok (w, n') := by
+  obtain ⟨N, hN⟩ := term_call p (checkProg_sound p hchk) rank hdesc m s t v hsig hwt
+  refine ⟨N, ?_⟩
+  intro fuel hf cs n
+  obtain ⟨⟨w, n'⟩, h⟩ := hN fuel hf cs n
+  exact ⟨w, n', h⟩
+
+open Gv.Typing Gv.Safety Gv.Sound in
+theorem C02_total_node (p : Program) (hchk : PlanCheck.checkProg p = true) (rank : Nat → Nat) (hdesc : callsDescend p rank = true)
+    (c : Conv) (s t : Ty) (v : Val) (hc : PlanCheck.checkTy p c s t = true) (hwt : WTC p.conv.env v s) :
+    ∃ N, ∀ fuel, N ≤ fuel → ∀ (fr : Frame) (old : Val) (n : Nat), ∃ w n', evalConv p fuel fr c v old n = .ok (w, n') := by
+  obtain ⟨N, hN⟩ := term_any p (checkProg_sound p hchk) rank hdesc v c s t (checkTy_sound p c s t hc) hwt
+  refine ⟨N, ?_⟩
+  intro fuel hf fr old n
+  obtain ⟨⟨w, n'⟩, h⟩ := hN fuel hf fr old n
+  exact ⟨w, n', h⟩
+
+open Gv.Typing Gv.Safety Gv.Spec in
+/-- both halves of C02 together: from some fuel on, the call returns a value, and that value is the structural image -/
+theorem C02_terminates_with_image (p : Program) (hchk : PlanCheck.checkProg p = true) (rank : Nat → Nat)
+    (hdesc : callsDescend p rank = true) (m : Nat) (s t : Ty) (v : Val) (hsig : sigOf p m = some (s, t)) (hwt : WTC p.conv.env v s) :
+    ∃ N, ∀ fuel, N ≤ fuel → ∀ n, ∃ w n', callMethod p fuel m v [] n = .ok (w, n') ∧ Img p.conv.env s t v (erase w) := by
+  obtain ⟨N, hN⟩ := C02_total p hchk rank hdesc m s t v hsig hwt
+  refine ⟨N, ?_⟩
+  intro fuel hf n
+  obtain ⟨w, n', h⟩ := hN fuel hf [] n
+  exact ⟨w, n', h, C02_composite p hchk fuel m s t v n w n' hsig hwt.toWT h⟩
+
+/-! non-vacuity: the recursive list type `type L struct { V int; Next *L }`, converted by two mutually recursive methods
+(`L → L`: struct with the field `Next` delegated to `*L → *L`, which dereferences and calls `L → L`), as Gen emits them -/
+namespace ExL
+open Gv.Typing Gv.Safety
+set_option linter.unusedSimpArgs false
+
+def fV : FieldInfo := { name := "V".toList, exported := true, embedded := false, pkg := [] }
+def fNext : FieldInfo := { name := "Next".toList, exported := true, embedded := false, pkg := [] }
+def tyL : Ty := .named "p.L".toList
+def lFields : Fields := .cons fV (.basic .int) (.cons fNext (.ptr tyL) .nil)
+def declL : NamedDecl :=
+  { id := "p.L".toList, pkgPath := "p".toList, pkgName := "p".toList, name := "L".toList, exported := true,
+    underlying := .struct lFields, methods := [], consts := [] }
+def w0 : Wrap := { mode := .none, path := [] }
+def planL : Conv :=
+  .structc (.cons (.mapped "V".toList ["V".toList] [false] false false .ident .none)
+    (.cons (.mapped "Next".toList ["Next".toList] [false] false true (.call (.method 1) [.source] false w0) .none) .nil)) false
+def planP : Conv := .ptrPtr tyL (.call (.method 0) [.source] false w0)
+def mk (name : String) (s t : Ty) (c : Conv) : GenMethod :=
+  { name := name.toList, source := s, target := t, args := [], contexts := [], returnError := false, updateTarget := false,
+    explicit := false, dirty := false, originPath := [], originName := [], cfg := { common := {} }, body := some (.convert c) }
+def prog : Program :=
+  { conv := { env := [declL], common := {}, outputPkg := [], customs := [], extend := [], orc := {} },
+    methods := [mk "Convert" tyL tyL planL, mk "pLToPL" (.ptr tyL) (.ptr tyL) planP] }
+
+example : PlanCheck.checkProg prog = true := by decide
+/-- every call sits below a struct field or a pointer dereference: any ranking does -/
+example : callsDescend prog (fun _ => 0) = true := by decide
+
+def node (r : String) (next : Val) : Val := .struct [("V".toList, .basic r.toList), ("Next".toList, next)]
+/-- 1 → 2 → 3 → nil -/
+def l3 : Val := node "1" (.ptr (.src 1) (node "2" (.ptr (.src 2) (node "3" .nil))))
+
+theorem wtc_node (r : String) (next : Val) (h : WTC prog.conv.env next (.ptr tyL)) : WTC prog.conv.env (node r next) tyL := by
+  refine .struct (tfs := lFields) rfl ?_ ?_
+  · intro f ty hm
+    simp only [lFields, Fields.toList, List.mem_cons, Prod.mk.injEq, List.not_mem_nil, or_false] at hm
+    rcases hm with ⟨rfl, _⟩ | ⟨rfl, _⟩ <;> rfl
+  · intro name x f ty hl hf
+    by_cases hV : name = "V".toList
+    · subst hV
+      simp [node, List.lookup] at hl
+      simp [lFields, Fields.toList, List.find?, fV] at hf
+      obtain ⟨_, rfl⟩ := hf; subst hl
+      exact .basic (k := .int) rfl
+    · by_cases hN : name = "Next".toList
+      · subst hN
+        simp [node, List.lookup] at hl
+        simp [lFields, Fields.toList, List.find?, fV, fNext] at hf
+        obtain ⟨_, rfl⟩ := hf; subst hl
+        exact h
+      · exfalso
+        have h1 : (name == ['V']) = false := by simpa using hV
+        have h2 : (name == ['N', 'e', 'x', 't']) = false := by simpa using hN
+        simp [node, List.lookup] at hl
+        simp [h1, h2] at hl
+
+theorem wtc_l3 : WTC prog.conv.env l3 tyL :=
+  wtc_node "1" _ (.ptr (e := tyL) rfl (wtc_node "2" _ (.ptr (e := tyL) rfl (wtc_node "3" _ (.nilPtr (e := tyL) rfl)))))
+
+def isOk {α} : Outcome α → Bool
+  | .ok _ => true
+  | _ => false
+
+/-- the three-element list (nil at depth 3) converts with fuel 40, and is out of fuel with 5 -/
+example : isOk (callMethod prog 40 0 l3 [] 0) = true := by
+  simp [callMethod, prog, mk, planL, planP, l3, node, tyL, declL, lFields, fV, fNext, w0, evalConv, evalFields, walk, fieldOf, setField,
+    normStruct, zeroVal, zeroVal.zeroFields, under, TEnv.find, Fields.toList, Val.isAbsent, bind, StateT.bind, pure, StateT.pure, freshLoc,
+    List.lookup, List.filterMapM, List.filterMapM.loop, argOf, isOk, zeroBasic, stuckE]
+example : callMethod prog 5 0 l3 [] 0 = .stuck "fuel" := by
+  simp [callMethod, prog, mk, planL, planP, l3, node, tyL, declL, lFields, fV, fNext, w0, evalConv, evalFields, walk, fieldOf, setField,
+    normStruct, zeroVal, zeroVal.zeroFields, under, TEnv.find, Fields.toList, Val.isAbsent, bind, StateT.bind, pure, StateT.pure, freshLoc,
+    List.lookup, List.filterMapM, List.filterMapM.loop, argOf, isOk, zeroBasic, stuckE]
+/-- nil at the top of the pointer method -/
+example : callMethod prog 3 1 .nil [] 0 = .ok (.nil, 0) := by
+  simp [callMethod, prog, mk, planL, planP, l3, node, tyL, declL, lFields, fV, fNext, w0, evalConv, evalFields, walk, fieldOf, setField,
+    normStruct, zeroVal, zeroVal.zeroFields, under, TEnv.find, Fields.toList, Val.isAbsent, bind, StateT.bind, pure, StateT.pure, freshLoc,
+    List.lookup, List.filterMapM, List.filterMapM.loop, argOf, isOk, zeroBasic, stuckE]
+
+/-- the theorems apply to it -/
+example (fuel : Nat) :
+    (∃ w n', callMethod prog fuel 0 l3 [] 0 = .ok (w, n')) ∨ callMethod prog fuel 0 l3 [] 0 = .stuck "fuel" :=
+  C02_no_panic prog (by decide) fuel 0 tyL tyL l3 [] 0 rfl wtc_l3
+example : ∃ N, ∀ fuel, N ≤ fuel → ∀ (cs : List Val) (n : Nat), ∃ w n', callMethod prog fuel 0 l3 cs n = .ok (w, n') :=
+  C02_total prog (by decide) (fun _ => 0) (by decide) 0 tyL tyL l3 rfl wtc_l3
+
+/-- `Typing.WT` is not enough for safety: a struct value without its `Next` field is `WT`, and reading the field is stuck -/
+theorem C02_WT_not_enough :
+    PlanCheck.checkProg prog = true ∧ WT prog.conv.env (.struct [("V".toList, .basic "1".toList)]) tyL ∧
+    callMethod prog 40 0 (.struct [("V".toList, .basic "1".toList)]) [] 0 = .stuck "walk: no such field" := by
+  refine ⟨by decide, ?_, by
+    simp [callMethod, prog, mk, planL, planP, l3, node, tyL, declL, lFields, fV, fNext, w0, evalConv, evalFields, walk, fieldOf, setField,
+    normStruct, zeroVal, zeroVal.zeroFields, under, TEnv.find, Fields.toList, Val.isAbsent, bind, StateT.bind, pure, StateT.pure, freshLoc,
+    List.lookup, List.filterMapM, List.filterMapM.loop, argOf, isOk, zeroBasic, stuckE]⟩
+  refine .struct (tfs := lFields) rfl ?_
+  intro name x f ty hl hf
+  by_cases hV : name = "V".toList
+  · subst hV
+    simp [List.lookup] at hl
+    simp [lFields, Fields.toList, List.find?, fV] at hf
+    obtain ⟨_, rfl⟩ := hf; subst hl
+    exact .basic (k := .int) rfl
+  · exfalso
+    have h1 : (name == ['V']) = false := by simpa using hV
+    simp [List.lookup, h1] at hl
+end ExL
+/-! the ranking at work, and why the descent hypothesis is there -/
+namespace ExRank
+open Gv.Typing Gv.Safety ExL
+
+/-- a third method `L → *L` whose body calls `L → L` on the SAME value (no dereference in between) -/
+def prog3 : Program :=
+  { prog with methods := prog.methods ++ [mk "LToPL" tyL (.ptr tyL) (.tgtPtr tyL (.call (.method 0) [.source] false w0))] }
+
+example : PlanCheck.checkProg prog3 = true := by decide
+example : callsDescend prog3 (fun m => if m == 2 then 1 else 0) = true := by decide
+example : callsDescend prog3 (fun _ => 0) = false := by decide
+
+/-- a method that calls itself on the same value passes the plan check, has no ranking, and indeed never returns -/
+def loopProg : Program :=
+  { conv := { env := [], common := {}, outputPkg := [], customs := [], extend := [], orc := {} },
+    methods := [mk "Loop" (.basic .int) (.basic .int) (.call (.method 0) [.source] false w0)] }
+
+theorem C02_total_needs_descent :
+    PlanCheck.checkProg loopProg = true ∧ (∀ rank, callsDescend loopProg rank = false) ∧
+    WTC loopProg.conv.env (.basic "1".toList) (.basic .int) ∧
+    ∀ fuel n, callMethod loopProg fuel 0 (.basic "1".toList) [] n = .stuck "fuel" := by
+  refine ⟨by decide, ?_, .basic (k := .int) rfl, ?_⟩
+  · intro rank
+    simp [callsDescend, loopProg, mk, descB]
+  · have hm : loopProg.methods[0]? = some (mk "Loop" (.basic .int) (.basic .int) (.call (.method 0) [.source] false w0)) := rfl
+    have step : ∀ fuel n, callMethod loopProg fuel 0 (.basic "1".toList) [] n = .stuck "fuel" →
+        callMethod loopProg (fuel + 2) 0 (.basic "1".toList) [] n = .stuck "fuel" := by
+      intro fuel n h
+      rw [callMethod_convert loopProg (fuel + 1) 0 _ _ _ [] n hm rfl, evalConv_call, h]
+    have base1 : ∀ n, callMethod loopProg 1 0 (.basic "1".toList) [] n = .stuck "fuel" := by
+      intro n
+      rw [callMethod_convert loopProg 0 0 _ _ _ [] n hm rfl, evalConv_zero]
+    have both : ∀ fuel, (∀ n, callMethod loopProg fuel 0 (.basic "1".toList) [] n = .stuck "fuel") ∧
+        (∀ n, callMethod loopProg (fuel + 1) 0 (.basic "1".toList) [] n = .stuck "fuel") := by
+      intro fuel
+      induction fuel with
+      | zero => exact ⟨fun n => callMethod_zero loopProg 0 _ [] n, base1⟩
+      | succ k ih => exact ⟨ih.2, fun n => step k n (ih.1 n)⟩
+    intro fuel n
+    exact (both fuel).1 n
+end ExRank
 
 end Gv.Props.C02
